@@ -421,7 +421,7 @@ func runLogProp(cfg logRunCfg) func(seed int64, tier string, outDir string) *res
 			}
 		}
 		// scenario monitors built on LogOptions.Entries (forged entries, shared entry maps)
-		if replayFile == "" && (cfg.prop == "C06" || cfg.prop == "C05" || cfg.prop == "C03" || cfg.prop == "C02") {
+		if replayFile == "" && (cfg.prop == "C06" || cfg.prop == "C05" || cfg.prop == "C03" || cfg.prop == "C02" || cfg.prop == "C04" || cfg.prop == "C01") {
 			st := &c06Stats{kinds: map[string]int{}}
 			xf := func(prop, mon, key, detail string, c interface{}) {
 				if prop == cfg.prop || contains(cfg.alsoReport, prop) {
@@ -439,7 +439,9 @@ func runLogProp(cfg logRunCfg) func(seed int64, tier string, outDir string) *res
 			if cfg.prop == "C06" || cfg.prop == "C02" {
 				runForgeScenarios(xr, nf, st, xf)
 			}
-			if cfg.prop != "C06" {
+			if cfg.prop == "C04" {
+				runAppendScenarios(xr, na, st, xf)
+			} else if cfg.prop != "C06" {
 				runAliasScenarios(xr, na, st, xf)
 				runPartialJoinScenarios(xr, na, st, xf)
 			}
